@@ -209,11 +209,15 @@ theorem inv_deliver (s : State) (k : Nat) (h : Inv s) : Inv (stepDeliver s k).1 
     simp only [List.count_append] at *
     omega
 
+theorem pushThrow_state (s : State) : (stepPushThrow s).1 = s := by
+  unfold stepPushThrow; split <;> rfl
+
 theorem inv_step (s : State) (op : Op) (h : Inv s) : Inv (step s op).1 := by
   unfold step
   cases op <;> simp only <;> (try split) <;> (try unfold stepLive) <;> (try simp only) <;>
     first
     | exact h
+    | (rw [pushThrow_state]; exact h)
     | exact inv_push s _ _ (by assumption) h
     | exact inv_pop s _ (by assumption) h
     | exact inv_upop s _ (by assumption) h
@@ -322,6 +326,12 @@ theorem step_abs (s : Q.State) (op : Op) :
   | push p v =>
     simp only [e]; split
     · exact push_abs s p v
+    · rfl
+  | pushthrow =>
+    simp only [e]; split
+    · simp only [VQ.stepLive, Q.stepLive, Q.stepPushThrow]
+      have hw : (abs s).waiters = s.waiters := rfl
+      rw [hw]; split <;> rfl
     · rfl
   | pop c =>
     simp only [e]; split
